@@ -24,6 +24,10 @@ func init() {
 	register("C11", checkC11)
 	register("C05", checkC05)
 	register("C01", checkC01)
+	register("C03", checkC03)
+	register("C04", checkC04)
+	register("C13", checkC13)
+	register("C07", checkC07)
 }
 
 func main() {
